@@ -46,7 +46,7 @@ theorem header_rt (loads : Str → Except Err Json) (av pre body : Str) (h : Hea
 
 example : ∃ (loads : Str → Except Err Json) (h : Header),
     loads (' ' :: h.toJson) = .ok h.toJsonVal ∧ h.Normal ['1'] ∧ falsy h.module = false :=
-  ⟨tableLoads wTable, curHeader (wEnv outDep) true mC, w_loadsSound outDep true mC (by simp), curHeader_normal _ _ _, rfl⟩
+  ⟨tableLoads wTable, curHeader (wEnv outDep) wV1 true mC, w_loadsSound outDep wV1 (by simp [wVers]) true mC (by simp), curHeader_normal _ _ _ _, rfl⟩
 
 /-- full statement without the line break after the header (a file that consists of the header line only) -/
 def header_rt_no_newline_statement : Prop :=
@@ -125,58 +125,177 @@ example : effForce ⟨[], [], some true, []⟩ false = true ∧ effForce ⟨[], 
 /-! ## the fix-point law -/
 
 /-- full statement: after any history from an empty output tree — md5 free of collisions, `json.loads` sound on the written
-    headers, output paths pairwise distinct under every configuration of the history — a plain run leaves the contents a
-    forced run leaves. -/
+    headers, non-empty version strings (`Sound`), output paths pairwise distinct under every configuration and releases with
+    versions of `vs` (`Hist`) — a plain run leaves the contents a forced run leaves. -/
 def fixpoint_statement : Prop :=
-  ∀ (σ : Type) (E : Env σ) (w0 : World σ) (ops : List (Op σ)),
-    HashInj E → IdInj E w0.mods → LoadsSound E w0.mods → (∀ p, w0.files p = none) → NoOverlap w0.cfg w0.mods → DirsOK w0 ops →
+  ∀ (σ : Type) (E : Env σ) (vs : List Vers) (w0 : World σ) (ops : List (Op σ)),
+    HashInj E → Sound E w0.mods vs → Hist vs w0 ops →
     SameContents (runStep E (exec E w0 ops) false).world.files (forcedRun E (exec E w0 ops)).world.files
 
 /-- … is false: the header records the hash of the module's own source only, the output depends on imported modules.
     Witness: `b` imports `c`; run; edit `c`; a plain run keeps `b`'s output, a forced run rewrites it. -/
 theorem fixpoint_counterexample : ¬ fixpoint_statement := by
   intro h
-  have := h Bool (wEnv outDep) wWorld wOps (wHash_inj _) (w_idInj _ _) (w_loadsSound _) (fun _ => rfl) w_noOverlap w_dirsOK
-    ['/', 'o', '/', 'b', '.', 'h']
+  have := h Bool (wEnv outDep) wVers wWorld wOps (wHash_inj _) ⟨w_idInj _ _ _, w_loadsSound _, wVers_nonEmpty⟩
+    ⟨fun _ => rfl, w_noOverlap, w_dirsOK, w_versOK⟩ ['/', 'o', '/', 'b', '.', 'h']
   revert this
   decide +kernel
 
-example : HashInj (wEnv outDep) ∧ LoadsSound (wEnv outDep) wWorld.mods ∧ NoOverlap wWorld.cfg wWorld.mods ∧ DirsOK wWorld wOps :=
-  ⟨wHash_inj _, w_loadsSound _, w_noOverlap, w_dirsOK⟩
+example : HashInj (wEnv outDep) ∧ Sound (wEnv outDep) wWorld.mods wVers ∧ Hist wVers wWorld wOps :=
+  ⟨wHash_inj _, ⟨w_idInj _ _ _, w_loadsSound _, wVers_nonEmpty⟩, ⟨fun _ => rfl, w_noOverlap, w_dirsOK, w_versOK⟩⟩
 
-/-- The law holds for all histories when the output of a module depends on its own source only (`OwnSource`): every file in
-    the tree then is the rendering of the module and source its header names, so an unchanged header means unchanged bytes. -/
-theorem fixpoint_partial {σ : Type} (E : Env σ) (bodyOf : Str → σ → Except Err Text) (w0 : World σ) (ops : List (Op σ))
-    (hown : OwnSource E bodyOf) (hh : HashInj E) (hid : IdInj E w0.mods) (hls : LoadsSound E w0.mods)
-    (hempty : ∀ p, w0.files p = none) (hno : NoOverlap w0.cfg w0.mods) (hops : DirsOK w0 ops) (argForce : Bool) :
-    SameContents (runStep E (exec E w0 ops) argForce).world.files (forcedRun E (exec E w0 ops)).world.files := by
-  have h0 : Good E bodyOf w0 w0 := ⟨rfl, rfl, rfl, hno, fun p f hf => by rw [hempty p] at hf; cases hf⟩
-  have hg := good_exec E bodyOf hown w0 ops w0 h0 hops
+/-- The law holds for ALL histories (edit / run / run -f / rm-output / set-dirs / set-force / set-version) and ANY transpiler body
+    on every path that is not stale. `deps m` bounds what the body of `m` reads (its import closure, `OutDeps`); a path is
+    stale (`StalePath`) when the plain run skips its module although a module of `deps m` was edited since that file was
+    written (ghost field `prov`) — exactly the known finding. Needed besides: the forced run can transpile the stale modules. -/
+theorem fixpoint_fresh_partial {σ : Type} (E : Env σ) (deps : Str → List Str) (vs : List Vers) (w0 : World σ) (ops : List (Op σ))
+    (hdeps : OutDeps E deps) (hself : ∀ m, m ∈ deps m) (hs : Sound E w0.mods vs) (hh : Hist vs w0 ops) (argForce : Bool)
+    (hok : ∀ m ∈ (exec E w0 ops).mods, ∀ p, outputFilepath (exec E w0 ops).cfg m = .ok p → StalePath E deps (exec E w0 ops) p →
+      ∃ c, render E (exec E w0 ops).ver (exec E w0 ops).src m = .ok c) :
+    SameExcept (StalePath E deps (exec E w0 ops))
+      (runStep E (exec E w0 ops) argForce).world.files (forcedRun E (exec E w0 ops)).world.files := by
+  have hg := good_of_hist E vs w0 ops hh
   have hm := hg.mods
-  exact runStep_same_as_forced E bodyOf (exec E w0 ops) hown (by rw [hm]; exact hls) (by rw [hm]; exact hid) hh
-    (by rw [hm]; exact hg.noOverlap) (by rw [hm]; exact hg.inv) argForce
+  exact runStep_same_except E deps vs (exec E w0 ops) hdeps hself (by rw [hm]; exact hs.loadsSound) (by rw [hm]; exact hs.idInj)
+    hs.nonEmpty hg.ver (by rw [hm]; exact hg.noOverlap) (by rw [hm]; exact hg.inv) hok argForce
 
-example : OwnSource (wEnv outOwn) bodyOwn ∧ HashInj (wEnv outOwn) ∧ IdInj (wEnv outOwn) wWorld.mods ∧
-    LoadsSound (wEnv outOwn) wWorld.mods ∧ NoOverlap wWorld.cfg wWorld.mods ∧ DirsOK wWorld wOps :=
-  ⟨fun _ _ => rfl, wHash_inj _, w_idInj _ _, w_loadsSound _, w_noOverlap, w_dirsOK⟩
+example : OutDeps (wEnv outDep) wDeps ∧ (∀ m, m ∈ wDeps m) ∧
+    StalePath (wEnv outDep) wDeps (exec (wEnv outDep) wWorld wOps) ['/', 'o', '/', 'b', '.', 'h'] ∧
+    ¬ StalePath (wEnv outDep) wDeps (exec (wEnv outDep) wWorld wOps) ['/', 'o', '/', 'c', '.', 'h'] := by
+  refine ⟨w_outDeps, w_depsSelf, ⟨mB, by decide, by decide +kernel, by decide +kernel, ?_⟩, ?_⟩
+  · exact ⟨fun _ => false, by rfl, mC, by decide, by decide +kernel⟩
+  · rintro ⟨m, hm, hp, hc, _⟩
+    have hm' : m = mB ∨ m = mC := by simpa [exec, wOps, wWorld, step, runStep_frame] using hm
+    rcases hm' with rfl | rfl
+    · revert hp; decide +kernel
+    · revert hc; decide +kernel
+
+/-- Corollary: when no module of the import closure of any skipped module was edited since its output was written, the plain
+    run leaves exactly the contents of the forced run. -/
+theorem fixpoint_fresh {σ : Type} (E : Env σ) (deps : Str → List Str) (vs : List Vers) (w0 : World σ) (ops : List (Op σ))
+    (hdeps : OutDeps E deps) (hself : ∀ m, m ∈ deps m) (hs : Sound E w0.mods vs) (hh : Hist vs w0 ops) (argForce : Bool)
+    (hfresh : ∀ p, ¬ StalePath E deps (exec E w0 ops) p) :
+    SameContents (runStep E (exec E w0 ops) argForce).world.files (forcedRun E (exec E w0 ops)).world.files := by
+  intro p
+  exact fixpoint_fresh_partial E deps vs w0 ops hdeps hself hs hh argForce
+    (fun m _ q _ hst => absurd hst (hfresh q)) p (hfresh p)
+
+example : ∀ p, ¬ StalePath (wEnv outDep) wDeps (exec (wEnv outDep) wWorld [.run false, .edit mB true]) p := by
+  rintro p ⟨m, hm, hp, hc, snap, hsnap, d, hd, hne⟩
+  have hm' : m = mB ∨ m = mC := by simpa [exec, wWorld, step, runStep_frame] using hm
+  rcases hm' with rfl | rfl
+  · revert hc; decide +kernel
+  · have hpc : p = ['/', 'o', '/', 'c', '.', 'h'] := by
+      have : outputFilepath wCfg mC = .ok ['/', 'o', '/', 'c', '.', 'h'] := by decide +kernel
+      have hcfg : (exec (wEnv outDep) wWorld [.run false, .edit mB true]).cfg = wCfg := by simp [exec, step, runStep_frame, wWorld]
+      rw [hcfg, this] at hp
+      injection hp with hp; exact hp.symm
+    subst hpc
+    have hd' : d = mC := by simpa [wDeps, mB, mC] using hd
+    subst hd'
+    have hs' : (exec (wEnv outDep) wWorld [.run false, .edit mB true]).prov ['/', 'o', '/', 'c', '.', 'h'] = some (fun _ => false) := by
+      rfl
+    rw [hs'] at hsnap
+    injection hsnap with hsnap
+    subst hsnap
+    revert hne
+    decide +kernel
+
+/-- Corollary (the former partial theorem): with own-source-only outputs (`OwnSource`) and a collision-free source hash no path
+    is ever stale, so the law holds for all histories. -/
+theorem fixpoint_partial {σ : Type} (E : Env σ) (bodyOf : Str → σ → Except Err Text) (vs : List Vers) (w0 : World σ) (ops : List (Op σ))
+    (hown : OwnSource E bodyOf) (hh : HashInj E) (hs : Sound E w0.mods vs) (hist : Hist vs w0 ops) (argForce : Bool) :
+    SameContents (runStep E (exec E w0 ops) argForce).world.files (forcedRun E (exec E w0 ops)).world.files := by
+  have hg := good_of_hist E vs w0 ops hist
+  have hm := hg.mods
+  apply fixpoint_fresh E (fun m => [m]) vs w0 ops (outDeps_own E bodyOf hown) (fun m => by simp) hs hist argForce
+  intro p
+  exact no_stalePath_own E vs (exec E w0 ops) hh (by rw [hm]; exact hs.loadsSound) (by rw [hm]; exact hs.idInj) hs.nonEmpty hg.ver
+    (by rw [hm]; exact hg.inv) p
+
+example : OwnSource (wEnv outOwn) bodyOwn ∧ HashInj (wEnv outOwn) ∧ Sound (wEnv outOwn) wWorld.mods wVers ∧ Hist wVers wWorld wOps :=
+  ⟨fun _ _ => rfl, wHash_inj _, ⟨w_idInj _ _ _, w_loadsSound _, wVers_nonEmpty⟩, ⟨fun _ => rfl, w_noOverlap, w_dirsOK, w_versOK⟩⟩
 
 /-- `fixpoint_partial` without the hypothesis that the output paths are pairwise distinct -/
 def fixpoint_shared_path_statement : Prop :=
-  ∀ (σ : Type) (E : Env σ) (bodyOf : Str → σ → Except Err Text) (w0 : World σ) (ops : List (Op σ)),
-    OwnSource E bodyOf → HashInj E → IdInj E w0.mods → LoadsSound E w0.mods → (∀ p, w0.files p = none) →
+  ∀ (σ : Type) (E : Env σ) (bodyOf : Str → σ → Except Err Text) (vs : List Vers) (w0 : World σ) (ops : List (Op σ)),
+    OwnSource E bodyOf → HashInj E → Sound E w0.mods vs → (∀ p, w0.files p = none) → VersOK vs w0 ops →
     SameContents (runStep E (exec E w0 ops) false).world.files (forcedRun E (exec E w0 ops)).world.files
 
 /-- … is false: when two modules share a path the targets, being selected before anything is written, make every plain run
     rewrite the module whose header is *not* in the file — the file flips, while a forced run always ends with the last module. -/
 theorem fixpoint_shared_path_counterexample : ¬ fixpoint_shared_path_statement := by
   intro h
-  have := h Bool (wEnvFor [cM1, cM2] outOwn) bodyOwn cWorld [.run false] (fun _ _ => rfl) (wHashFor_inj _ _) (wFor_idInj _ _ _)
-    (wFor_loadsSound _ _ cTable_nodup) (fun _ => rfl) ['/', 'w', '/', 'o', 'u', 't', '/', 'x', '.', 'h']
+  have := h Bool (wEnvFor [cM1, cM2] outOwn) bodyOwn wVers cWorld [.run false] (fun _ _ => rfl) (wHashFor_inj _ _)
+    ⟨wFor_idInj _ _ _ _, wFor_loadsSound _ _ cTable_nodup, wVers_nonEmpty⟩ (fun _ => rfl)
+    ⟨by simp [wVers, cWorld], fun v hv => by simp at hv⟩ ['/', 'w', '/', 'o', 'u', 't', '/', 'x', '.', 'h']
   revert this
   decide +kernel
 
 example : OwnSource (wEnvFor [cM1, cM2] outOwn) bodyOwn ∧ ¬ NoOverlap cWorld.cfg cWorld.mods :=
   ⟨fun _ _ => rfl, by decide +kernel⟩
+
+/-! ## a new release regenerates everything -/
+
+/-- After ANY history, a release whose versions (application or transpiler) differ from every version used so far makes the
+    plain run the forced run: every existing header records another version, so every module is a target. -/
+theorem version_bump {σ : Type} (E : Env σ) (vs : List Vers) (w0 : World σ) (ops : List (Op σ)) (v : Vers)
+    (hh : Hist vs w0 ops) (hs : Sound E w0.mods (v :: vs)) (hnew : v ∉ vs) :
+    runStep E (exec E w0 (ops ++ [.setVer v])) false = forcedRun E (exec E w0 (ops ++ [.setVer v])) := by
+  have hg := good_of_hist E vs w0 ops hh
+  have hexec : exec E w0 (ops ++ [.setVer v]) = { exec E w0 ops with ver := v } := by
+    simp [exec, List.foldl_append, step]
+  rw [hexec]
+  have hm : ({ exec E w0 ops with ver := v } : World σ).mods = w0.mods := hg.mods
+  have hinv : Inv E ({ exec E w0 ops with ver := v } : World σ).mods vs { exec E w0 ops with ver := v } := by
+    rw [hm]; exact inv_of_eq E _ vs _ _ rfl rfl hg.inv
+  have := targets_all_of_new_version E vs { exec E w0 ops with ver := v } (by rw [hm]; exact hs.loadsSound) (by rw [hm]; exact hs.idInj)
+    hs.nonEmpty hnew (by rw [hm]; exact hg.noOverlap) hinv
+  unfold runStep forcedRun
+  rcases this with h | h
+  · rw [h]
+  · simp [targets, h]
+
+example : Hist [wV1] wWorld [.run false] ∧ Sound (wEnv outDep) wWorld.mods (wV2 :: [wV1]) ∧ wV2 ∉ [wV1] ∧
+    targets (wEnv outDep) (exec (wEnv outDep) wWorld ([.run false] ++ [.setVer wV2])) false = .ok [mB, mC] ∧
+    targets (wEnv outDep) (exec (wEnv outDep) wWorld [.run false]) false = .ok [] := by
+  refine ⟨⟨fun _ => rfl, w_noOverlap, fun ds h => by simp at h, by simp [wWorld], fun v h => by simp at h⟩, ?_, by decide, by decide +kernel, by decide +kernel⟩
+  exact sound_mono _ _ wVers _ (fun v hv => by simp only [List.mem_cons, List.not_mem_nil, or_false] at hv; rcases hv with rfl | rfl <;> simp [wVers]) ⟨w_idInj _ _ _, w_loadsSound _, wVers_nonEmpty⟩
+
+/-! ## the header records the hash of the module's own file -/
+
+/-- `module_meta_factory` finds the module by its exact path: for every module list without duplicate paths the meta of a listed
+    module records the md5 of exactly that module's file (and the module's path). -/
+theorem meta_lookup_exact (hashFile : Str → Str) (mps : List ModPath) (hnd : (mps.map (·.path)).Nodup) (mp : ModPath) (hm : mp ∈ mps) :
+    factoryMeta hashFile mps mp.path =
+      .ok (.obj [(kHash, .str (hashFile (moduleToFilepath mp.path ('.' :: mp.language)))), (kPath, .str mp.path)]) := by
+  simp [factoryMeta, metaFile, metaLookup_exact mps hnd mp hm]
+
+example : factoryMeta id [mpShapeUtils, mpShape] mpShape.path =
+    .ok (.obj [(kHash, .str ['s', 'h', 'a', 'p', 'e', '.', 'p', 'y']), (kPath, .str mpShape.path)]) := by rfl
+
+/-- With duplicates the FIRST entry of that path decides (`list.index`); a path that is not listed raises ValueError. -/
+theorem meta_lookup_first (mps : List ModPath) (m : Str) :
+    (∀ mp, metaLookup mps m = .ok mp → mp.path = m ∧ ∃ pre post, mps = pre ++ mp :: post ∧ ∀ x ∈ pre, x.path ≠ m) ∧
+    ((∀ x ∈ mps, x.path ≠ m) ↔ metaLookup mps m = .error .valueError) :=
+  ⟨fun mp h => metaLookup_first mps m mp h, metaLookup_absent mps m⟩
+
+example : metaLookup [⟨['a'], ['p', 'y']⟩, ⟨['a'], ['x']⟩] ['a'] = .ok ⟨['a'], ['p', 'y']⟩ ∧
+    metaLookup [⟨['a'], ['p', 'y']⟩] ['b'] = .error .valueError := by decide
+
+/-- regression example — the lookup by substring containment (`metaLookupSubstr`, NOT the code): -/
+def meta_lookup_substring_statement : Prop :=
+  ∀ (mps : List ModPath) (mp : ModPath), (mps.map (·.path)).Nodup → mp ∈ mps → metaLookupSubstr mps mp.path = .ok mp
+
+/-- … does not find the listed module: `shape` gets the entry of `shape_utils` listed before it (and so its hash). -/
+theorem meta_lookup_substring_counterexample : ¬ meta_lookup_substring_statement := by
+  intro h
+  have := h [mpShapeUtils, mpShape] mpShape (by decide) (by decide)
+  revert this
+  decide
+
+example : metaLookupSubstr [mpShapeUtils, mpShape] mpShape.path = .ok mpShapeUtils ∧
+    metaLookup [mpShapeUtils, mpShape] mpShape.path = .ok mpShape := by decide
 
 /-! ## distinct modules never share an output path -/
 
